@@ -12,6 +12,7 @@ import numpy as np
 import pandas as pd
 from hypothesis import strategies as st
 
+from _gettsim.config import TYPES_INPUT_VARIABLES
 from _gettsim.interface import FunctionsAndColumnsOverlapWarning, compute_taxes_and_transfers
 
 from .. import compare, core, env, popcheck, popgen
@@ -38,9 +39,30 @@ GEN = dict(mode="branch", max_households=3)
 K = {"quick": 8, "thorough": 40}
 
 
+def group_sum_variants(date):
+    """Year <-> month variants (not in the DAG) of group-level DAG nodes that are not explicit rules."""
+    from .c13 import variants
+
+    _, functions = env.policy_env(date)
+    nodes = set(env.all_nodes(date))
+    out = []
+    for m in sorted(nodes):
+        vv = variants(m)
+        if not vv or env.group_of(m) is None or m in functions:
+            continue
+        fam, u = vv
+        if u not in "ym" or any(x in functions for x in fam.values()):
+            continue
+        other = fam["m" if u == "y" else "y"]
+        if other not in nodes and other not in TYPES_INPUT_VARIABLES:
+            out.append(other)
+    return out
+
+
 def strategy(date, ctx):
     nodes = env.all_nodes(date)
     units, _ = derived_names(date)
+    gsv = group_sum_variants(date)
     k = K[ctx["tier"]]
 
     @st.composite
@@ -50,6 +72,8 @@ def strategy(date, ctx):
         pool = st.one_of(st.sampled_from(nodes), st.sampled_from(nodes), st.sampled_from(grouped),
                          st.sampled_from(units) if units else st.sampled_from(nodes))
         chosen = sorted(set(draw(st.lists(pool, min_size=k, max_size=k))))
+        if gsv:
+            chosen = sorted(set(chosen) | {draw(st.sampled_from(gsv))})
         pairs = draw(st.booleans())
         rounding = draw(st.booleans())
         return _Case((pop, chosen, rounding, pairs))
@@ -143,6 +167,61 @@ def check_used(df, date, n, base, rounding, nodes, stats=None):
     return []
 
 
+def check_variant_used(df, date, n, base, rounding, nodes, stats=None):
+    """A supplied *derived* group-level column in the other of the units year / month.
+
+    n is the month (year) variant of a DAG node m that is not an explicit rule (an automatic group sum):
+    supplying n with other values must give, on every other node, what supplying m with the 12-fold
+    (12th) values gives.  Monthly amounts are whole numbers, so both conversions are exact in binary
+    floating point and no rounding step downstream can tell the two runs apart."""
+    from .c13 import variants
+
+    params, functions = env.policy_env(date)
+    vv = variants(n)
+    if not vv or env.group_of(n) is None:
+        return []
+    fam, u_n = vv
+    nodeset = set(nodes)
+    m = next((x for u, x in fam.items() if x in nodeset and x != n), None)
+    if m is None or m in functions or any(x in functions for x in fam.values()) or base[m].dtype.kind != "f":
+        return []
+    u_m = next(u for u, x in fam.items() if x == m)
+    if {u_n, u_m} != {"y", "m"}:
+        return []
+    monthly = np.floor(np.abs(base[m].to_numpy()) / (12.0 if u_m == "y" else 1.0) * 1.25) + 3.0
+    val = {"m": monthly, "y": 12.0 * monthly}
+    targets = [t for t in nodes if t not in fam.values()]
+    outs = []
+    for name, u in ((n, u_n), (m, u_m)):
+        data = df.copy()
+        data[name] = val[u]
+        try:
+            with warnings.catch_warnings():
+                warnings.simplefilter("ignore")
+                outs.append(compute_taxes_and_transfers(data=data, params=params, functions=functions,
+                                                        targets=targets, rounding=rounding))
+        except Exception as e:  # noqa: BLE001
+            outs.append(e)
+    a, b = outs
+    if isinstance(a, Exception) or isinstance(b, Exception):
+        if type(a) is type(b):
+            return []
+        e = a if isinstance(a, Exception) else b
+        return [core.Failure(f"variant-raises:{n}", f"{date}: supplying {n if isinstance(a, Exception) else m} raises {type(e).__name__}: {e!s:.150}, "
+                             f"supplying the same amounts as {m if isinstance(a, Exception) else n} does not")]
+    key = np.arange(len(df))
+    diffs = compare.compare_frames(b, a, key_base=key, key_other=key, columns=targets, check_dtype=False, rtol=1e-12)
+    if stats is not None:
+        changed = compare.compare_frames(base, b, key_base=key, key_other=key, columns=targets, check_dtype=False)
+        stats.append(("perturbed-variant:" + n, bool(changed), False))
+    if diffs:
+        d = diffs[0]
+        return [core.Failure(f"variant-not-used:{n}->{d['column']}",
+                             f"{date}: with other values supplied as {n}, {d['column']} is not what it is when the same amounts are "
+                             f"supplied as {m} ({d}); {len(diffs)} node(s) differ")]
+    return []
+
+
 def check_nodes(df, date, chosen, rounding, pairs, stats=None, n_perturb=3):
     nodes = env.all_nodes(date)
     nodeset = set(nodes)
@@ -172,6 +251,8 @@ def check_nodes(df, date, chosen, rounding, pairs, stats=None, n_perturb=3):
         groups.append(chosen[:2])
     for n in [c for c in chosen if c in functions and c not in _IDS][:n_perturb]:
         fails.extend(check_used(df, date, n, base, rounding, nodes, stats))
+    for n in [c for c in chosen if c not in nodeset and env.group_of(c) is not None][:n_perturb]:
+        fails.extend(check_variant_used(df, date, n, base, rounding, nodes, stats))
     for grp in groups:
         supplied = {n: base[n] for n in grp}
         targets = [t for t in nodes if t not in grp]
@@ -254,7 +335,9 @@ def oracle(case, date, sh, ctx):
     fails = check_nodes(pop.df, date, chosen, rounding, pairs, stats, n_perturb=N_PERTURB[ctx["tier"]])
     pdg = core.digest([pop.df["p_id"].tolist(), pop.df["bruttolohn_m"].tolist()])
     for n, desc, const in stats:
-        if n.startswith("ulp-sensitive:"):
+        if n.startswith("perturbed-variant:"):
+            sh.classes["derived-variant-supplied:" + ("changes-other-nodes" if desc else "no-other-node-changes")] += 1
+        elif n.startswith("ulp-sensitive:"):
             sh.classes["derived-column-case-ill-conditioned(one ulp changes the outcome)"] += 1
         elif n.startswith("perturbed"):
             sh.classes["perturbed:both-ways-raise" if const else
